@@ -206,8 +206,8 @@ theorem step_quiet (cfg : Cfg) (s : St) (op : Op) (hl : RestoreLegal op)
   | send p =>
     simp only [step]
     unfold send
-    split; exact quiet_err _ _
-    split; exact quiet_err _ _
+    split; exact quiet_refuseSend _ _ _
+    split; exact quiet_refuseSend _ _ _
     exact quiet_processSend _ _ (hnp p rfl)
   | recv inp parse => exact quiet_recv _ _ _
   | timer k => exact quiet_notifyTimerFired _ _
@@ -232,9 +232,9 @@ theorem step_alias (cfg : Cfg) (s : St) (op : Op) (peer : Mon.PeerTable) (hv : s
     simp only [step]
     unfold send
     split
-    · exact ⟨peer, by simp [peerPubs], hinv⟩
+    · exact ⟨peer, quiet_result (c := { cfg := cfg, s := s }) _ (quiet_refuseSend _ _ _) rfl hinv⟩
     split
-    · exact ⟨peer, by simp [peerPubs], hinv⟩
+    · exact ⟨peer, quiet_result (c := { cfg := cfg, s := s }) _ (quiet_refuseSend _ _ _) rfl hinv⟩
     · rename_i hver _
       have hver' : s.ver = p.ver := by simpa using hver
       have : processSend { cfg := cfg, s := s } p = psV5Publish { cfg := cfg, s := s } p := by
